@@ -116,6 +116,15 @@ def run_case(case):
                         np.array(dyn.states), ref, tol, f"perm {perm}")
         out.check_close("times", np.array(dyn.times), t0 + dt * np.arange(N + 1), 1e-12 * max(1, abs(t0) + N * dt))
         results[perm] = np.array(dyn.states)
+        if perm == perms[0]:
+            # only the final state is computed
+            if n == 0:
+                dfin = oqupy.compute_dynamics(system, rho0, dt=dt, num_steps=N, record_all=False, **kw)
+            else:
+                dfin = oqupy.compute_dynamics(system, rho0, process_tensor=pts if len(pts) > 1 else pts[0], record_all=False, **kw)
+            out.check_close("record_all=False", np.array(dfin.states)[-1], ref[-1], tol, "final state only")
+            if len(dfin.times) != 1 or abs(dfin.times[0] - (t0 + N * dt)) > 1e-12 * (abs(t0) + N * dt + 1):
+                out.fail("record_all=False/time", f"{list(dfin.times)}")
         npre = case.get("prefix")
         if npre is not None and n >= 1 and perm == perms[0] and not any(c["step"] > npre for c in case["controls"]):
             # only the first n steps of longer process tensors
